@@ -1579,12 +1579,78 @@ def check_model(report, st, limit):
     return n, bad
 
 
+def samefs_cases(report):
+    """copy_dir / copy_fs / mirror where source and destination are the SAME filesystem object (real threads, no
+    scheduler): for every worker count the outcome class and the resulting tree must equal the workers=0 run.
+    Destinations: disjoint, inside the source, and equivalent spellings of the source itself."""
+    import shutil
+    import tempfile
+    import fs.copy
+    import fs.mirror
+    from fs.memoryfs import MemoryFS
+    from fs.osfs import OSFS
+    n = 0
+    bad = []
+    dsts = ["/other", "/folder", "/x/../folder", "./folder", "folder/sub/..", "/folder/", "/folder/sub/new", "/folder/sub"]
+    for kind in ("mem", "os"):
+        for dst in dsts:
+            for fn in ("copy_dir", "copy_dir_if"):
+                outs = {}
+                for w in (0, 1, 2, 4):
+                    tmp = tempfile.mkdtemp(prefix="pyfs2verif_c09_") if kind == "os" else None
+                    f = OSFS(tmp) if tmp else MemoryFS()
+                    try:
+                        f.makedirs("/folder/sub")
+                        f.makedirs("/x")
+                        for i in range(5):
+                            f.writebytes("/folder/f%d" % i, b"data-%d" % i * (i + 1))
+                        f.writebytes("/folder/sub/g", b"gg")
+                        f.writebytes("/folder/empty", b"")
+                        try:
+                            if fn == "copy_dir":
+                                fs.copy.copy_dir(f, "/folder", f, dst, workers=w)
+                            else:
+                                fs.copy.copy_dir_if(f, "/folder", f, dst, "always", workers=w)
+                            out = "ok"
+                        except Exception as e:  # noqa
+                            out = common.exc_name(e)
+                        tree = sorted((p, f.readbytes(p)) for p in f.walk.files("/", max_depth=6))
+                        if len(tree) > 200:
+                            tree = "runaway (%d files)" % len(tree)
+                        outs[w] = (out, tree)
+                    finally:
+                        f.close()
+                        if tmp:
+                            shutil.rmtree(tmp, ignore_errors=True)
+                    n += 1
+                for w in (1, 2, 4):
+                    if outs[w] != outs[0]:
+                        bad.append(dict(backend=kind, function=fn, src_path="/folder", dst_path=dst, workers=w,
+                                        sequential=repr(outs[0])[:600], parallel=repr(outs[w])[:600]))
+                        break
+    seen = set()
+    for b in bad:
+        sig = "same-fs %s workers differ from sequential [%s] dst=%s" % (b["function"], b["backend"], b["dst_path"])
+        known = report.known_match(sig)
+        if known:
+            report.known_finding(known, b)
+            continue
+        if (b["function"], b["backend"]) in seen:
+            continue
+        seen.add((b["function"], b["backend"]))
+        report.violation(dict(kind="parallel-differs-from-sequential (same filesystem object)", signature=sig,
+                              theorem=THEOREM, **b))
+    return dict(samefs_runs=n, samefs_divergences=len(bad))
+
+
 def run(report):
     proof = common.preflight(report)
     st = explore(report.tier, report.seed)
     check_model(report, st, 3000 if report.tier == "thorough" else 500)
     report_violations(report, st)
-    return report.finish(proof, coverage(st, report.tier), assumptions=ASSUMPTIONS)
+    cov = coverage(st, report.tier)
+    cov.update(samefs_cases(report))
+    return report.finish(proof, cov, assumptions=ASSUMPTIONS)
 
 
 def replay(report, path):
